@@ -45,8 +45,8 @@ def log(msg):
 # plans
 
 
-def load_plan(pid):
-    with open(os.path.join(VERIF, "plans", pid + ".json")) as f:
+def load_plan(pid, name=None):
+    with open(os.path.join(VERIF, "plans", (name or pid) + ".json")) as f:
         plan = json.load(f)
     assert plan["property"] == pid
     return plan
@@ -65,12 +65,25 @@ def select_harnesses(plan, tier, substr):
 
 
 HDIR_OVERRIDE = [None]
+_INFO_CACHE = {}
 
 
 def harness_source_info(name):
     """unwind bound and source file of a harness, read from the harness sources (the scratch copy of
-    the harness directory once it exists: it also holds generated files)"""
+    the harness directory once it exists: it also holds generated files); memoised, because the
+    evidence is written after the scratch copy has been removed"""
+    if name in _INFO_CACHE:
+        return _INFO_CACHE[name]
+    r = _harness_source_info(name)
+    if r["file"] is not None:
+        _INFO_CACHE[name] = r
+    return r
+
+
+def _harness_source_info(name):
     hdir = HDIR_OVERRIDE[0] or os.path.join(VERIF, "harness", "incrate")
+    if not os.path.isdir(hdir):
+        hdir = os.path.join(VERIF, "harness", "incrate")
     for fn in sorted(os.listdir(hdir)):
         if not fn.endswith(".rs"):
             continue
@@ -111,7 +124,56 @@ def make_scratch(tag):
 def apply_transforms(plan, repo, hdir):
     done = []
     for t in plan.get("transforms", []):
-        if t == "snapshot_btree_shim":
+        if t == "shim_boxed_slots":
+            # variant of the container model whose slot array lives in a Box: a map (and hence a Snap)
+            # is then a few words, like std's BTreeMap, so moving Snaps through VecDeque/Vec (C13) does
+            # not copy the whole array
+            p = os.path.join(hdir, "shim_btree.rs")
+            s = open(p).read()
+            for o, n in [("    slots: [Option<(K, V)>; SHIM_CAP],\n", "    slots: Box<[Option<(K, V)>; SHIM_CAP]>,\n"),
+                         ("slots: [None, None, None, None],", "slots: Box::new([None, None, None, None]),")]:
+                if s.count(o) != 1:
+                    raise Inconclusive("source transform shim_boxed_slots: %r not found exactly once" % o)
+                s = s.replace(o, n)
+            open(p, "w").write(s)
+            done.append("container model variant: slot array boxed (harness/shim/shim_btree.rs, scratch copy only)")
+        elif t == "demo_scaled_buffers":
+            # the demo writer/reader own several 64 KiB ArrayVec buffers, which keeps even their
+            # construction out of reach; the tick logic and the message transform do not depend on the
+            # buffer size, so they are decided with the constant scaled down to 128 bytes
+            p = os.path.join(repo, "demo", "src", "format.rs")
+            s = open(p).read()
+            o, n = "pub const MAX_SNAPSHOT_SIZE: usize = 65536;\n", "pub const MAX_SNAPSHOT_SIZE: usize = 128;\n"
+            if s.count(o) != 1:
+                raise Inconclusive("source transform demo_scaled_buffers: line %r not found exactly once" % o)
+            open(p, "w").write(s.replace(o, n))
+            done.append("demo/src/format.rs: MAX_SNAPSHOT_SIZE 65536 -> 128 (buffer sizes of the demo writer/reader; scratch copy only)")
+        elif t == "shim_cap_1":
+            # container model with capacity 1 (C13: the world per tick is at most one item, a delta has
+            # at most one update or one deletion): Snap/Delta values shrink to a few words
+            p = os.path.join(hdir, "shim_btree.rs")
+            s = open(p).read()
+            for o, n in [("pub const SHIM_CAP: usize = 4;\n", "pub const SHIM_CAP: usize = 1;\n"),
+                         ("slots: [None, None, None, None]", "slots: [None]")]:
+                if s.count(o) != 1:
+                    raise Inconclusive("source transform shim_cap_1: %r not found exactly once" % o)
+                s = s.replace(o, n)
+            open(p, "w").write(s)
+            done.append("container model capacity 1 instead of 4 (harness/shim/shim_btree.rs, scratch copy only)")
+        elif t == "snapshot_scaled_limits":
+            # the 1024-item / 64 KiB limits need a 1024-entry map as pre-state, which is out of reach; the
+            # limit *logic* is decided with the two constants scaled down to the capacity of the
+            # container model (3 items / 48 bytes), everything else unchanged
+            p = os.path.join(repo, "snapshot", "src", "snap.rs")
+            s = open(p).read()
+            for o, n in [("pub const MAX_SNAPSHOT_SIZE: usize = 64 * 1024; // 64 KB\n", "pub const MAX_SNAPSHOT_SIZE: usize = 48;\n"),
+                         ("pub const MAX_SNAPSHOT_ITEMS: usize = 1024;\n", "pub const MAX_SNAPSHOT_ITEMS: usize = 3;\n")]:
+                if s.count(o) != 1:
+                    raise Inconclusive("source transform snapshot_scaled_limits: line %r not found exactly once" % o)
+                s = s.replace(o, n)
+            open(p, "w").write(s)
+            done.append("snapshot/src/snap.rs: MAX_SNAPSHOT_ITEMS 1024 -> 3 and MAX_SNAPSHOT_SIZE 64 KiB -> 48 bytes (scaled limits; scratch copy only)")
+        elif t == "snapshot_btree_shim":
             p = os.path.join(repo, "snapshot", "src", "snap.rs")
             s = open(p).read()
             old = [
@@ -191,9 +253,13 @@ def target_dir(pid):
     return d
 
 
-def codegen(repo, hdir, pkg, tdir, logdir):
+def codegen(repo, hdir, pkg, tdir, logdir, first_harness=None):
+    """compile the package and its dependencies once before the per-harness runs start in parallel;
+    restricted to one harness: goto binaries for all (150+) harnesses of a package are not needed here"""
     t0 = time.time()
     cmd = ["cargo", "kani", "-p", pkg, "--only-codegen", "--target-dir", tdir] + KANI_COMMON
+    if first_harness:
+        cmd += ["--harness", first_harness, "--exact"]
     lp = os.path.join(logdir, "build.%s.log" % pkg)
     with open(lp, "w") as lf:
         rc = subprocess.call(cmd, cwd=repo, env=base_env(hdir), stdout=lf, stderr=subprocess.STDOUT)
@@ -553,52 +619,31 @@ def schedule(harnesses, worker, jobs):
     return results
 
 
-def main():
-    ap = argparse.ArgumentParser()
-    ap.add_argument("property")
-    ap.add_argument("--tier", default=os.environ.get("VERIF_TIER", "quick"), choices=["quick", "thorough"])
-    ap.add_argument("--harness", default=None, help="only harnesses whose name contains this")
-    ap.add_argument("--replay", default=None, help="re-run a recorded counterexample")
-    ap.add_argument("--keep", action="store_true", help="keep the scratch copy")
-    ap.add_argument("--no-evidence", action="store_true")
-    args = ap.parse_args()
-    pid = args.property
-    seed = int(os.environ.get("VERIF_SEED", "0"))
-    t_start = time.time()
-    plan = load_plan(pid)
-    if hasattr(sys.modules[__name__], "PLAN_HOOKS") and pid in PLAN_HOOKS:
-        PLAN_HOOKS[pid](plan, seed, args.tier)
-    only = args.harness
-    if args.replay:
-        rec = json.load(open(args.replay))
-        only = rec["harness"]
-        args.tier = "thorough"
+def run_plan(pid, plan, tag, args, seed, known, only, viol_so_far=0):
+    """runs the harnesses of one plan file on its own scratch copy (a property may consist of a main
+    plan and sub-plans that need other source transforms of the scratch copy)"""
+    out = {"harnesses": [], "hres": {}, "transforms": [], "build_s": 0.0, "notes": [], "exit_code": 0, "violations": 0}
     harnesses = select_harnesses(plan, args.tier, only)
     if args.replay:
         harnesses = [h for h in harnesses if h["name"] == only]
     if not harnesses and not plan.get("dynamic"):
-        log("no harness selected")
-        return 3
+        return out
     cap = QUICK_CAP_S if args.tier == "quick" else THOROUGH_CAP_S
     jobs = int(os.environ.get("VERIF_JOBS", "16"))
-    known = load_known()
-
-    tdir = target_dir(pid)
+    notes = out["notes"]
+    tdir = target_dir(tag)
     lockf = open(os.path.join(tdir, ".verif.lock"), "w")
     fcntl.flock(lockf, fcntl.LOCK_EX)
     scratch = None
     exit_code = 0
     hres = {}
-    transforms = []
-    build_s = 0.0
-    notes = []
     violations = 0
     try:
-        scratch, repo, hdir = make_scratch(pid)
-        logdir = os.path.join(CACHE, "logs", pid + "-" + args.tier)
+        scratch, repo, hdir = make_scratch(tag)
+        logdir = os.path.join(CACHE, "logs", tag + "-" + args.tier)
         shutil.rmtree(logdir, ignore_errors=True)
         os.makedirs(logdir)
-        transforms = apply_transforms(plan, repo, hdir)
+        out["transforms"] = apply_transforms(plan, repo, hdir)
         HDIR_OVERRIDE[0] = hdir
         gdir = os.path.join(VERIF, "harness", "gen")
         for g in sorted(os.listdir(gdir)):
@@ -608,21 +653,23 @@ def main():
                 except subprocess.CalledProcessError as e:
                     raise Inconclusive("generator %s failed: %s" % (g, e))
         dyn = os.path.join(hdir, pid + "_harnesses.json")
-        if os.path.exists(dyn):
+        if os.path.exists(dyn) and plan.get("dynamic"):
             # harness list generated from the repository's own data files on this run
             extra = json.load(open(dyn))
             plan["harnesses"] = plan.get("harnesses", []) + extra
             harnesses = select_harnesses(plan, args.tier, only)
             if not harnesses:
                 raise Inconclusive("no harness selected after generation")
+        out["harnesses"] = harnesses
         check_hooks(plan, repo, harnesses)
         pkgs = []
         for h in harnesses:
             if h["package"] not in pkgs:
                 pkgs.append(h["package"])
         for pkg in pkgs:
-            rc, dt, lp = codegen(repo, hdir, pkg, tdir, logdir)
-            build_s += dt
+            first = [h["_path"] for h in harnesses if h["package"] == pkg][0]
+            rc, dt, lp = codegen(repo, hdir, pkg, tdir, logdir, first)
+            out["build_s"] += dt
             log("[build] %s: rc=%d %.0fs" % (pkg, rc, dt))
             if rc != 0:
                 tail = open(lp, errors="replace").read()[-3000:]
@@ -683,7 +730,7 @@ def main():
                 notes.append("%s: only pointer-level checks failed; not natively confirmable" % h["name"])
                 exit_code = max(exit_code, 2)
                 continue
-            if violations >= 1 and not os.environ.get("VERIF_REPLAY_ALL"):
+            if violations + viol_so_far >= 1 and not os.environ.get("VERIF_REPLAY_ALL"):
                 # one natively confirmed violation decides the run; further failing harnesses are
                 # listed but not replayed (set VERIF_REPLAY_ALL=1 to replay all)
                 log("FAILED-NOT-REPLAYED property=%s harness=%s (%s)" % (pid, h["name"], r["detail"]))
@@ -696,7 +743,7 @@ def main():
                 violations += 1
                 log("VIOLATION property=%s replay=%s" % (pid, rpath))
                 log("  harness %s: %s" % (h["name"], r["detail"]))
-                exit_code = 1 if exit_code != 1 else 1
+                exit_code = 1
             else:
                 log("COUNTEREXAMPLE-NOT-REPRODUCED property=%s harness=%s replay=%s (%s)" % (pid, h["name"], rpath, r["detail"]))
                 notes.append("%s: solver counterexample did not reproduce natively" % h["name"])
@@ -710,7 +757,69 @@ def main():
         if scratch and not args.keep:
             shutil.rmtree(scratch, ignore_errors=True)
             shutil.rmtree(tdir + "-playback", ignore_errors=True)
+        HDIR_OVERRIDE[0] = None
         fcntl.flock(lockf, fcntl.LOCK_UN)
+    out["hres"] = hres
+    out["exit_code"] = exit_code
+    out["violations"] = violations
+    return out
+
+
+def merge_exit(a, b):
+    # 1 (confirmed violation) dominates, then 3 (inconclusive), then 2, then 0
+    if 1 in (a, b):
+        return 1
+    return max(a, b)
+
+
+def main():
+    ap = argparse.ArgumentParser()
+    ap.add_argument("property")
+    ap.add_argument("--tier", default=os.environ.get("VERIF_TIER", "quick"), choices=["quick", "thorough"])
+    ap.add_argument("--harness", default=None, help="only harnesses whose name contains this")
+    ap.add_argument("--replay", default=None, help="re-run a recorded counterexample")
+    ap.add_argument("--keep", action="store_true", help="keep the scratch copy")
+    ap.add_argument("--no-evidence", action="store_true")
+    ap.add_argument("--plan", default=None, help="experiment plan file plans/<PLAN>.json (its own scratch/target dirs; never writes evidence)")
+    args = ap.parse_args()
+    pid = args.property
+    seed = int(os.environ.get("VERIF_SEED", "0"))
+    t_start = time.time()
+    plan = load_plan(pid, args.plan)
+    # VERIF_TAG_SUFFIX: private scratch/target/lock directories (seeded-change evaluation next to
+    # regular runs); such runs never write evidence
+    suffix = os.environ.get("VERIF_TAG_SUFFIX", "")
+    tag = (args.plan or pid) + suffix
+    if args.plan or suffix:
+        args.no_evidence = True
+    only = args.harness
+    if args.replay:
+        rec = json.load(open(args.replay))
+        only = rec["harness"]
+        args.tier = "thorough"
+    known = load_known()
+
+    plans = [(tag, plan)]
+    if not args.plan:
+        for sub in plan.get("subplans", []):
+            plans.append((sub + suffix, load_plan(pid, sub)))
+    harnesses, hres, transforms, notes = [], {}, [], []
+    build_s, violations, exit_code = 0.0, 0, 0
+    ran_any = False
+    for t, pl in plans:
+        r = run_plan(pid, pl, t, args, seed, known, only, violations)
+        if r["harnesses"] or r["exit_code"]:
+            ran_any = True
+        harnesses += r["harnesses"]
+        hres.update(r["hres"])
+        transforms += [("%s: " % t if t != pid else "") + x for x in r["transforms"]]
+        notes += r["notes"]
+        build_s += r["build_s"]
+        violations += r["violations"]
+        exit_code = merge_exit(exit_code, r["exit_code"])
+    if not ran_any:
+        log("no harness selected")
+        return 3
 
     wall = time.time() - t_start
     if not args.no_evidence and not args.harness and not args.replay:
